@@ -497,7 +497,9 @@ func c05DerivedPrograms() []*progCase {
 	}
 	locs := []loc{
 		{func(n string) []Stmt { return []Stmt{Ex(Asg("=", V("i"), N(n)))} }, func() Expr { return V("i") }, false},
-		{func(n string) []Stmt { return []Stmt{Ex(Asg("=", V("o"), &ObjLit{Keys: []string{"k"}, Vals: []Expr{N(n)}}))} }, func() Expr { return Mem(V("o"), "k") }, false},
+		{func(n string) []Stmt {
+			return []Stmt{Ex(Asg("=", V("o"), &ObjLit{Keys: []string{"k"}, Vals: []Expr{N(n)}}))}
+		}, func() Expr { return Mem(V("o"), "k") }, false},
 		{func(n string) []Stmt { return []Stmt{Ex(Asg("=", V("a"), Arr_(N(n), N("5"))))} }, func() Expr { return Idx(V("a"), N("0")) }, false},
 		{nil, func() Expr { return Mem(V("$"), "x") }, true},
 	}
